@@ -685,8 +685,19 @@ Inductive prim :=
 | PDetach (k : N)
 | PDetachFile (k : N)
 | PReattach (k c : N) (cdet : bool)
+| PSetHash (k : N) (b : bool)
+| PIncDefer (k : N)
 | PCreate (k : N) (creator : option N) (det : bool) (need : N) (safe stored : bool) (dur : N)
           (res : list (str * N)).
+
+(* INSERT OR REPLACE INTO / DELETE FROM step_hash (with the _has_hash triggers) *)
+Definition set_step_hash (g : graph) (k : N) (b : bool) : graph :=
+  with_steps g (map (fun s => if s_key s =? k then set_hash s b else s) (g_steps g)).
+(* UPDATE step SET defer_count = defer_count + 1 *)
+Definition inc_defer (g : graph) (k : N) : graph :=
+  with_steps g (map (fun s => if s_key s =? k
+                              then set_life s (s_state s) (s_deferred s) (s_defer_count s + 1) (s_holding s)
+                              else s) (g_steps g)).
 
 Definition apply_prim (g : graph) (p : prim) : option graph :=
   match p with
@@ -699,6 +710,8 @@ Definition apply_prim (g : graph) (p : prim) : option graph :=
   | PDetach k => Some (detach_step g k)
   | PDetachFile k => Some (detach_file g k)
   | PReattach k c cdet => Some (reattach_step g k c cdet)
+  | PSetHash k b => Some (set_step_hash g k b)
+  | PIncDefer k => Some (inc_defer g k)
   | PCreate k cr det need safe stored dur res => Some (create_step g k cr det need safe stored dur res)
   end.
 
@@ -720,7 +733,7 @@ Definition no_edge_into_b (g : graph) (S : list N) : bool :=
 
 Definition prim_ok_b (g : graph) (p : prim) : bool :=
   match p with
-  | PSetState _ _ _ | PHold _ | PRelease _ | PInsDep _ | PDelDep _ => true
+  | PSetState _ _ _ | PHold _ | PRelease _ | PInsDep _ | PDelDep _ | PSetHash _ _ | PIncDefer _ => true
   | PSetFileState k st _ =>
       forallb (fun f => negb (f_key f =? k) || Bool.eqb (f_state f =? FS_VOLATILE) (st =? FS_VOLATILE)) (g_files g)
   | PDetach k =>
